@@ -5,7 +5,7 @@ import time
 
 import pandas as pd
 
-from qsmon import core, sesswl
+from qsmon import core, pcmwl, sesswl
 from qsmon.props import _common
 
 PROP = 'C19'
@@ -15,7 +15,9 @@ RULE = ('(a) unit level: the real DynamicUniverse probed at entry-1min, entry-1u
         'EqualWeightPortfolioOptimiser on 1-12 keys and scales {0.5,1,2,U}; (b) session level: SingleSignalAlphaModel + '
         'DynamicUniverse over every schedule, both sizers, fees, with entries before the start, exactly on a rebalance '
         'instant, one minute after / before it, between instants, after the end, or None; all assets have data for the '
-        'whole session so membership is the only reason not to trade. At every rebalance the recorded allocation row, '
+        'whole session so membership is the only reason not to trade; (c) portfolio-construction level: ONE real '
+        'StaticUniverse object lives through 3-8 rebalances of a portfolio that also holds assets outside it - it must '
+        'keep yielding exactly its configured list, outsiders get weight 0, are sold and never re-ordered. At every rebalance the recorded allocation row, '
         'orders, holdings and every fill are checked against the entry map (entry <= t inclusive; member from the first '
         'such rebalance onward). Non-trivial: a session in which some asset enters strictly inside the run; distinct = '
         'config signature + entry map.')
@@ -75,7 +77,9 @@ def unit_probe(rng, acc):
 def plan(tier, seed):
     specs = _common.split(seed, 4, 8000 if tier == 'quick' else 400000, 40 if tier == 'quick' else 900, kind='unit')
     specs += [dict(s, kind='session', shard=4 + s['shard']) for s in
-              _common.split(seed + 1, 12, 180 if tier == 'quick' else 15000, 55 if tier == 'quick' else 1400)]
+              _common.split(seed + 1, 10, 160 if tier == 'quick' else 14000, 55 if tier == 'quick' else 1400)]
+    specs += [dict(s, kind='pcm', shard=14 + s['shard']) for s in
+              _common.split(seed + 2, 2, 120 if tier == 'quick' else 12000, 50 if tier == 'quick' else 1200)]
     return specs
 
 
@@ -96,6 +100,12 @@ def run_shard(spec, acc):
             if i % 50 == 0:
                 acc.nontriv(PROP, 'unit', spec['rng'], i)
             continue
+        if spec['kind'] == 'pcm':
+            case = pcmwl.gen_c19_case(rng)
+            core.guarded(PROP, acc, {'kind': 'pcm', 'case': case}, pcmwl.run_c19_case, case, acc)
+            acc.evaluations += 1
+            acc.nontriv(PROP, 'pcm', str(case['static_universe']), str(case['seed_holdings']), case['cash'])
+            continue
         cfg = sesswl.gen_cfg(rng, alpha_kinds=('single',), universe_kinds=('dynamic',),
                              max_days=60 if spec['tier'] == 'quick' else 200, n_assets=rng.randint(2, 6))
         tr, _ = sesswl.run_case(cfg, acc, PROP)
@@ -110,7 +120,9 @@ def run_shard(spec, acc):
 
 
 def replay(case, acc):
-    if case.get('kind') == 'unit':
+    if case.get('kind') == 'pcm':
+        core.guarded(PROP, acc, case, pcmwl.run_c19_case, case['case'], acc)
+    elif case.get('kind') == 'unit':
         rng = random.Random(case['rng_seed'])
         for i in range(case['index'] + 1):
             try:
